@@ -34,24 +34,24 @@ func nodePool() *nodebridge.Pool {
 }
 
 type jsAnalysis struct {
-	Free       []string
-	TopLexical []string
-	TopVar     []string
+	Free         []string
+	TopLexical   []string
+	TopVar       []string
 	DefaultLocal string // local name of `export default function NAME(){}` / class NAME (may be dropped when unused)
-	Props      []string
-	Labels     []string
-	Imexp      []string
-	Idents     []string
-	WithIdents []string
-	Imports    map[string]interface{}
-	Scopes     int
-	Bindings   int
-	MaxScope   int
-	MaxDepth   int
-	UsesEval   bool
-	UsesWith   bool
-	Kind       string
-	FreeCounts map[string]float64
+	Props        []string
+	Labels       []string
+	Imexp        []string
+	Idents       []string
+	WithIdents   []string
+	Imports      map[string]interface{}
+	Scopes       int
+	Bindings     int
+	MaxScope     int
+	MaxDepth     int
+	UsesEval     bool
+	UsesWith     bool
+	Kind         string
+	FreeCounts   map[string]float64
 }
 
 func strList(v interface{}) []string {
